@@ -642,9 +642,16 @@ fn text_strategy() -> BoxedStrategy<TextCase> {
         }
         TextCase { lang: c.lang, text: out.join(" ") }
     });
+    // one node with very many arguments (more bare identifiers than any machine word has bits), also nested once
+    let long = (proptest::sample::select(vec![LangId::Arith, LangId::Core, LangId::Lambda, LangId::Pay, LangId::ArrayLang]), 0usize..6, proptest::sample::select(vec![7usize, 8, 9, 31, 32, 33, 63, 64, 65, 66, 100, 130, 300]), proptest::sample::select(vec!["x", "1", "?a", "$a", "zero", "c0", "(v $a)"]), any::<bool>()).prop_map(|(lang, opi, n, tok, nest)| {
+        let ops = ["app", "add", "p", "tag", "f", "lam"];
+        let inner = format!("({} {})", ops[opi], vec![tok; n].join(" "));
+        TextCase { lang, text: if nest { format!("({} {} {})", ops[(opi + 1) % ops.len()], inner, tok) } else { inner } }
+    });
     crate::one_of![
         8 => (proptest::sample::select(langs), text).prop_map(|(lang, text)| TextCase { lang, text }),
         2 => near,
+        1 => long,
     ]
     .boxed()
 }
@@ -677,7 +684,7 @@ pub fn property(tier: Tier) -> Property {
             run: run_text,
             panic_is_violation: true,
             render: |c: &TextCase| format!("[{:?}] {:?}", c.lang, c.text),
-            rule: "token soup, truncations, splices and point mutations of valid texts, random printable strings, fed to RecExpr::parse, Pattern::parse and MultiPattern::parse of 8 languages; no panic, accepted values well formed; non-trivial = the text tokenizes but is rejected by the parser; distinct by text",
+            rule: "token soup, truncations, splices and point mutations of valid texts, random printable strings, near misses of multi-patterns, single nodes with 7-300 arguments, fed to RecExpr::parse, Pattern::parse and MultiPattern::parse of 8 languages; no panic, accepted values well formed; non-trivial = the text tokenizes but is rejected by the parser; distinct by text",
             case_timeout_s: 60,
             exhaustive: false,
         }),
